@@ -26,12 +26,15 @@ RULE = ('(history) sequences of up to 40 operations over the public API: constru
         'to its table, append to a decoded list, set a property), marshal a long-lived '
         '(possibly mutated) object again, encode two equal-comparing but distinguishable '
         'values one after the other (True/1, 0.0/-0.0, Decimal 1.0/1.00, the two datetimes '
-        'of a repeated DST hour). Oracle after every call: '
+        'of a repeated DST hour), and calls (decode, encode, marshal in a frame) on tables / '
+        'arrays nested 1..128 deep (depth-ladders: every depth in descending / ascending '
+        '/ zig-zag order). Oracle after every call: '
         '(i) canonical result (bytes | (consumed, channel, class, attrs) | exception type) '
         'equals the result of the same call with the same switch value in a pristine '
         'interpreter image (pbt.fresh forks a new image per call); (ii) no mutable member '
         '(dict, list, bytearray, Properties) of a library-created object is identical to a '
-        'member of another library-created object or of a class attribute; (iii) class-'
+        'member of another library-created object or of a class attribute, and no frame, '
+        'dict or list returned by a call is the object returned by an earlier call; (iii) class-'
         'level constants deep-equal their snapshot. (threads) 2-3 threads each running a '
         'drawn call list under a deterministic scheduler that switches threads at pamqp '
         'line events (quick) / opcodes (thorough) following a drawn schedule (used cyclically); every call '
@@ -43,7 +46,7 @@ RULE = ('(history) sequences of up to 40 operations over the public API: constru
         'k = 4..12) are made first, then 2-3 threads make fresh calls of that kind under a '
         'drawn schedule - so bounded caches keyed by value are exercised at and around '
         'their capacity, including concurrent eviction. Non-trivial: history contains >= 1 '
-        'failed decode or mutation before a later compared call; threaded: >= 10 context '
+        'failed decode or mutation before a later compared call, or a depth ladder; threaded: >= 10 context '
         'switches inside pamqp code. distinct = digest of the case.')
 ASSUMPTIONS = [
     'a call is described by its arguments and the legacy switch; the fresh image is a new '
@@ -243,6 +246,15 @@ def check_history(case):
                     disturbed = True
                 for obj in keep:
                     idx = len(objects)
+                    if calls.frame_state(obj) is not None or \
+                            isinstance(obj, (dict, list)):
+                        for j, o in enumerate(objects):
+                            if o is obj:
+                                raise Violation(
+                                    'aliasing:same-object',
+                                    'step %d: the %s returned by this call is the very '
+                                    'object returned to the caller at object #%d' %
+                                    (step, type(obj).__name__, j))
                     objects.append(obj)
                     for mid, path, member in mutable_members(obj):
                         if mid in cls_ids:
@@ -263,7 +275,7 @@ def check_history(case):
         encode.support_deprecated_rabbitmq(False)
     return {'labels': ['compared-after-disturbance=%d' % min(compared_after, 5),
                        'objects=%d' % min(len(objects), 20)],
-            'nontrivial': compared_after > 0}
+            'nontrivial': compared_after > 0 or bool(case.get('ladder'))}
 
 
 def _mutate(obj, how):
@@ -388,6 +400,67 @@ def prim_decode_ops():
                   st.binary(max_size=12)))
 
 
+DEPTHS = [1, 2, 3, 5, 8, 13, 16, 17, 24, 31, 32, 33, 34, 48, 63, 64, 65, 66, 96, 100,
+          127, 128]
+
+
+def py_chain(depth, pattern):
+    """a Python value nested `depth` containers deep (dicts / lists per pattern)"""
+    v = 1
+    for i in range(depth):
+        kind = pattern[(depth - 1 - i) % len(pattern)]
+        v = [v] if kind == 'A' else {'k': v}
+    return v
+
+
+def deep_call(direction, depth, pattern):
+    """one call on a value nested `depth` deep (well below the interpreter's recursion
+    limit, so the verdict cannot depend on the stack depth of the caller)"""
+    if direction == 'decode':
+        out = wire.Out()
+        v = wire.chain(depth, pattern, ['s', 7])
+        if v[0] == 'F' and depth % 2:
+            wire.render_table(v[1], out)
+            return ['prim_decode', 'field_table', bytes(out.buf)]
+        wire.render_value(v, out)
+        return ['prim_decode', 'embedded_value', bytes(out.buf)]
+    if direction == 'encode':
+        v = py_chain(depth, pattern)
+        return ['prim_encode', 'field_table' if isinstance(v, dict) else 'field_array',
+                v]
+    args = {'ticket': 0, 'queue': 'q', 'passive': False, 'durable': False,
+            'exclusive': False, 'auto_delete': False, 'nowait': False,
+            'arguments': {'deep': py_chain(depth, pattern)}}
+    return ['marshal', {'kind': 'method', 'cls': 'Queue.Declare', 'ch': 1,
+                        'args': args}]
+
+
+def deep_ops():
+    return st.builds(deep_call, st.sampled_from(['decode', 'decode', 'encode', 'frame']),
+                     st.one_of(st.sampled_from(DEPTHS), st.integers(1, 128)),
+                     st.sampled_from(['F', 'A', 'AF', 'FA'])).map(tuple)
+
+
+def depth_ladders(tier, shard, nshards):
+    """values of every nesting depth 1..128 coded one after the other - descending,
+    ascending, and a shallow value after each deep one - so that a call refused (or
+    accepted) for its depth cannot change what the next call is given"""
+    out = []
+    for direction in ('decode', 'encode', 'frame'):
+        for pattern in ('F', 'A', 'AF'):
+            down = [deep_call(direction, d, pattern) for d in range(128, 0, -1)]
+            up = down[::-1]
+            other = 'encode' if direction == 'decode' else 'decode'
+            zig = []
+            for d in DEPTHS[::-1]:
+                zig += [deep_call(direction, d, pattern), deep_call(other, 33, 'F'),
+                        deep_call(other, d, pattern),
+                        deep_call(direction, max(1, d - 1), pattern)]
+            for ops in (down, up + down[:40], zig):
+                out.append({'ops': ops, 'ladder': True})
+    return out[shard::nshards]
+
+
 def invalid_bytes():
     return st.one_of(
         st.binary(max_size=24),
@@ -408,7 +481,7 @@ def call_ops():
         st.tuples(st.just('unmarshal_valid'), wire.wire_frames()),
         st.tuples(st.just('unmarshal_valid'), wire.wire_frames()),
         st.tuples(st.just('unmarshal_invalid'), invalid_bytes()),
-        prim_encode_ops(), prim_decode_ops(), refused_encode_ops())
+        prim_encode_ops(), prim_decode_ops(), refused_encode_ops(), deep_ops())
 
 
 def history_cases(tier):
@@ -731,6 +804,11 @@ COMPONENTS = [
               shards={'quick': 8, 'thorough': 8},
               describe='every equal-comparing twin pair (numbers, decimals, fold twins, '
                        'proxies, int / str subclasses) x every encoder, both orders'),
+    Component('depth-ladders', check_history, cases=depth_ladders,
+              shards={'quick': 8, 'thorough': 8},
+              describe='tables / arrays of every nesting depth 1..128 decoded, encoded '
+                       'and sent in frames one after the other (descending, ascending, '
+                       'zig-zag across directions); each result vs a fresh interpreter'),
     Component('history', check_history, strategy=history_cases,
               budget={'quick': 2400, 'thorough': 48000},
               describe='generated API call histories vs fresh interpreter'),
